@@ -346,7 +346,7 @@ func raceKey(rep string) (string, bool) {
 
 // exclListFamily: both access stacks of the report go through the unsynchronised ExclusiveAccess list caches of DotGit.
 func exclListFamily(rep string) bool {
-	fam := []string{"genObjectList", "ObjectsWithPrefix", "(*DotGit).Objects", "hasObject", "genPackList", "cleanObjectList", "cleanPackList", "hasPack", "objectPacks", "forEachObjectHash", "ForEachObjectHash"}
+	fam := []string{"genObjectList", "ObjectsWithPrefix", "(*DotGit).Objects", "hasObject", "genPackList", "cleanObjectList", "cleanPackList", "hasPack", "objectPacks", "ObjectPacks", "packHandle", "PackHandle", "OpenPackForReading", "forEachObjectHash", "ForEachObjectHash", "Object(", "ObjectStat", "NewObject"}
 	halves := strings.SplitN(rep, "Previous ", 2)
 	if len(halves) != 2 {
 		return false
